@@ -72,3 +72,58 @@ pub assume_specification [<shared_state::agent_status_wrapper::AgentStatusShared
     ensures r == *a;
 pub assume_specification [<shared_state::key_keeper_wrapper::KeyKeeperSharedState as Clone>::clone] (a: &shared_state::key_keeper_wrapper::KeyKeeperSharedState) -> (r: shared_state::key_keeper_wrapper::KeyKeeperSharedState)
     ensures r == *a;
+
+// ---- the file system, for "the status tag file on disk is only ever replaced atomically, never observed half-written" ------
+// Paths are abstract texts. `joined(dir, name)` is Path::join for a relative single-component name.
+pub uninterp spec fn path_of<P>(p: P) -> Seq<char>;                      // the path a value denotes (AsRef<Path>)
+pub uninterp spec fn joined(dir: Seq<char>, name: Seq<char>) -> Seq<char>;
+pub uninterp spec fn file_name(path: Seq<char>) -> Seq<char>;            // last component
+pub uninterp spec fn parent_dir(path: Seq<char>) -> Seq<char>;
+// capability (DESIGN 2.3): established ONLY by the Ok postcondition of fs::write -- the whole content reached the file
+pub uninterp spec fn fully_written(path: Seq<char>) -> bool;
+#[verifier::external_body]
+pub broadcast proof fn axiom_path_of_str(s: &'static str)
+    ensures #[trigger] path_of::<&'static str>(s) == s@
+{}
+// std docs (Path::join / PathBuf::push): pushing a relative name appends it as the last component
+#[verifier::external_body]
+pub broadcast proof fn axiom_file_name_joined(dir: Seq<char>, name: Seq<char>)
+    ensures file_name(#[trigger] joined(dir, name)) == name && parent_dir(joined(dir, name)) == dir
+{}
+pub open spec fn is_status_tag(path: Seq<char>) -> bool { file_name(path) == "status.tag"@ }
+pub proof fn lits_status_files()
+    ensures provision::STATUS_TAG_FILE_NAME@ == "status.tag"@, provision::STATUS_TAG_TMP_FILE_NAME@ == "status.tag.tmp"@,
+            provision::PROVISION_TAG_FILE_NAME@ == "provisioned.tag"@,
+            "status.tag"@ != "status.tag.tmp"@, "status.tag"@ != "provisioned.tag"@,
+{
+    reveal_strlit("status.tag"); reveal_strlit("status.tag.tmp"); reveal_strlit("provisioned.tag");
+    assert("status.tag"@.len() == 10); assert("status.tag.tmp"@.len() == 14); assert("provisioned.tag"@.len() == 15);
+}
+#[verifier::external_body]
+pub broadcast proof fn axiom_fmt_io_error() ensures #[trigger] vstd::std_specs::fmt::fmt_req_all::<std::io::Error>() {}
+#[verifier::external_type_specification] #[verifier::external_body]
+pub struct ExIoError(std::io::Error);
+// std docs: Path::join "Creates an owned PathBuf with path adjoined to self"
+#[verifier::allow(undeclared_external_trait)]
+pub assume_specification<P> [std::path::Path::join] (dir: &std::path::Path, p: P) -> (r: std::path::PathBuf)
+    where P: std::convert::AsRef<std::path::Path>,
+    ensures path_of::<std::path::PathBuf>(r) == joined(path_of::<&std::path::Path>(dir), path_of::<P>(p));
+// std docs: fs::write "Writes a slice as the entire contents of a file. This function will create a file if it does not
+// exist, and will entirely replace its contents if it does" -- NOT atomic: a crash or a concurrent reader can observe a
+// truncated file. The PRECONDITION is the proof obligation of C16: never used on a path named status.tag.
+#[verifier::allow(undeclared_external_trait)]
+pub assume_specification<P, C> [std::fs::write] (path: P, contents: C) -> (r: std::result::Result<(), std::io::Error>)
+    where C: std::convert::AsRef<[u8]>, P: std::convert::AsRef<std::path::Path>,
+    requires !is_status_tag(path_of::<P>(path)),  // @C16.fs_write.status_tag_is_never_written_in_place
+    ensures r is Ok ==> fully_written(path_of::<P>(path));
+// std docs: fs::rename "Renames a file or directory to a new name, replacing the original file if to already exists";
+// POSIX rename(2) replaces the target atomically (trust ledger item 5). PRECONDITION = obligation of C16: status.tag is
+// only ever produced by renaming the completely written status.tag.tmp of the same directory.
+#[verifier::allow(undeclared_external_trait)]
+pub assume_specification<P, Q> [std::fs::rename] (from: P, to: Q) -> (r: std::result::Result<(), std::io::Error>)
+    where P: std::convert::AsRef<std::path::Path>, Q: std::convert::AsRef<std::path::Path>,
+    requires is_status_tag(path_of::<Q>(to)) ==> fully_written(path_of::<P>(from)) && file_name(path_of::<P>(from)) == "status.tag.tmp"@
+                && parent_dir(path_of::<P>(from)) == parent_dir(path_of::<Q>(to));  // @C16.fs_rename.status_tag_replaced_only_by_the_completely_written_temp_file
+// PathBuf derefs to the Path with the same text
+pub assume_specification [<std::path::PathBuf as std::ops::Deref>::deref] (p: &std::path::PathBuf) -> (r: &std::path::Path)
+    ensures path_of::<&std::path::Path>(r) == path_of::<std::path::PathBuf>(*p);
